@@ -2,7 +2,7 @@
 harness, so both sides hold the same class objects."""
 
 from collections import defaultdict, namedtuple
-from dataclasses import dataclass, field
+from dataclasses import InitVar, dataclass, field
 from enum import Enum, Flag, IntEnum
 from math import inf
 from typing import Any, NamedTuple
@@ -91,6 +91,42 @@ class PAlias(BaseModel):
 
     name: Any = Field(alias="n")
     other: Any = 3
+
+
+@dataclass
+class Hidden:
+    """a compared field that repr() hides"""
+
+    a: Any
+    b: Any = field(default=3, repr=False)
+
+
+@attrs.define
+class AHidden:
+    a: Any
+    b: Any = attrs.field(default=3, repr=False)
+
+
+class PHidden(BaseModel):
+    a: Any
+    b: Any = Field(default=3, repr=False)
+
+
+class PExtra(BaseModel, extra="allow"):
+    """`zz` is no declared field"""
+
+    a: Any
+
+
+@dataclass
+class IVar:
+    """an init-only pseudo-field: `scale` is consumed by __post_init__ and is no attribute of the instance"""
+
+    a: Any
+    scale: InitVar[Any] = 1
+
+    def __post_init__(self, scale):
+        self.a = self.a * scale
 
 
 @dataclass
@@ -203,5 +239,5 @@ def mutate_in_place(v, depth=0):
 __all__ = [
     "IdentityEq", "LossyCopy", "mutate_in_place", "APriv", "PAlias", "DInit", "make_dinit",
     "Color", "Level", "Perm", "Outer", "Point", "FPoint", "Box", "APoint", "AFrozen",
-    "PModel", "NT", "TNT", "Opaque", "Vec", "defaultdict", "inf",
+    "PModel", "NT", "TNT", "Opaque", "Vec", "defaultdict", "inf", "Hidden", "AHidden", "PHidden", "PExtra", "IVar",
 ]
